@@ -8,35 +8,34 @@ set_option linter.unusedSimpArgs false
 namespace Gql.Load
 open Gql
 
-/-- a well-formed merged document together with the state the loader built from it -/
+/-- a well-formed document together with the state the loader built from it; `dirEq`: the directive
+    definition the specification regards as in force is the one in `schema.Directives` (true in a merged
+    document, `spec_directive_eq_of_merged`, and when no directive name is declared twice, `spec_directive_eq`) -/
 structure WfState (sd : SchemaDoc) (st : LState) : Prop where
   wf : Spec.WellFormed sd
-  merged : MergedDoc sd
+  hext : ∀ e ∈ sd.extensions, e.builtIn = false
   built : buildState sd = .ok st
+  dirEq : ∀ n, (Spec.TypeSystem.ofDoc sd).directive? n = st.directives.lookup n
 
 section
 variable {sd : SchemaDoc} {st : LState}
 
 theorem WfState.typeEq (W : WfState sd st) (n : Name) : (Spec.TypeSystem.ofDoc sd).type? n = st.types.lookup n :=
-  spec_type_eq W.built W.merged.extNotBuiltin n
-
-theorem WfState.dirEq (W : WfState sd st) (n : Name) :
-    (Spec.TypeSystem.ofDoc sd).directive? n = st.directives.lookup n :=
-  spec_directive_eq_of_merged W.built W.wf.uniqueDirectiveNames W.merged n
+  spec_type_eq W.built W.hext n
 
 theorem WfState.typesInv (W : WfState sd st) : KeysInv (·.name) st.types := (buildState_inv W.built).1
 theorem WfState.dirsInv (W : WfState sd st) : KeysInv (·.name) st.directives := (buildState_inv W.built).2.1
 
 theorem WfState.typeIs (W : WfState sd st) {n : Name} {p : DefKind → Bool}
     (h : (Spec.TypeSystem.ofDoc sd).typeIs n p = true) : ∃ d, st.types.lookup n = some d ∧ p d.kind = true := by
-  rw [spec_typeIs_eq W.built W.merged.extNotBuiltin] at h
+  rw [spec_typeIs_eq W.built W.hext] at h
   cases hl : st.types.lookup n with
   | none => rw [hl] at h; cases h
   | some d => rw [hl] at h; exact ⟨d, rfl, h⟩
 
 theorem WfState.mem_spec (W : WfState sd st) {p : Name × Definition} (hp : p ∈ st.types) :
     p.2 ∈ (Spec.TypeSystem.ofDoc sd).types ∧ p.2.name = p.1 :=
-  state_types_mem_spec W.built W.merged.extNotBuiltin hp
+  state_types_mem_spec W.built W.hext hp
 
 /- ------------------------------------------------------------------ validateName -/
 
